@@ -6,7 +6,7 @@ cd "$(dirname "$0")/.."
 patch=$(readlink -f "$1"); shift
 props="$@"
 [ -z "$props" ] && props=$(python3 -c "import json;print(' '.join(c['property_id'] for c in json.load(open('MANIFEST.json'))['checks']))")
-S=/tmp/seval
+S=${SEVAL_DIR:-/tmp/seval}
 mkdir -p $S
 if [ ! -d $S/repo ]; then git -C /repo worktree add -q --detach $S/repo HEAD; cp /repo/Cargo.lock $S/repo/; fi
 ( cd $S/repo && git checkout -q --detach $(git -C /repo rev-parse HEAD) && git checkout -q -- . ) || exit 2
@@ -17,6 +17,8 @@ sed -i "s|/repo/|$S/repo/|g" $S/sim/Cargo.toml
 export VERIF_ROOT=$S/root; rm -rf $VERIF_ROOT; mkdir -p $VERIF_ROOT/corpus; cp known_findings.txt $VERIF_ROOT/; cp -r corpus/* $VERIF_ROOT/corpus/
 for p in $props; do
   out=$($S/sim/target/release/renet-sim check $p --tier ${TIER:-quick} 2>&1); code=$?
+  echo "$out" > $S/last_$p.log
+  [ $code = 2 ] && echo "$out" | grep -i "harness" | head -3
   sigs=$(echo "$out" | grep -E '^violation ' | sed -E 's/^violation ([^ ]+) .*/\1/' | sort -u | tr '\n' ' ')
   echo "$p exit=$code ${sigs}"
 done
